@@ -317,6 +317,44 @@ Proof.
   rewrite (m21_method nd_runs C07_nd_obl german_table g account O Hdig Hlen). reflexivity.
 Qed.
 
+
+(* ---- 61, and 76 up to the case its refutation exhibits ---------------------------------------------------------------- *)
+Lemma C07_m61_76_obl :
+  match method_class "61" with Some g => ok61 g | None => false end = true
+  /\ match method_class "76" with Some g => ok76 g | None => false end = true.
+Proof. vm_cast_no_check (conj (eq_refl true) (eq_refl true)). Qed.
+Lemma C07_m24_obl : match method_class "24" with Some g => ok24 g | None => false end = true.
+Proof. vm_cast_no_check (eq_refl true). Qed.
+
+Theorem C07_m24 : method_statement "24".
+Proof.
+  pose proof C07_m24_obl as O. unfold method_statement. method_intro "24"%string.
+  rewrite (m24_method nd_runs C07_nd_obl german_table g account O Hdig Hlen). reflexivity.
+Qed.
+
+Theorem C07_m61 : method_statement "61".
+Proof.
+  destruct C07_m61_76_obl as (O & _). unfold method_statement. method_intro "61"%string.
+  rewrite (m61_method nd_runs C07_nd_obl german_table g account O Hdig Hlen). reflexivity.
+Qed.
+
+(* method 76 agrees with the Bundesbank description on every account number whose weighted sum does not leave
+   remainder 10 (for those it differs: C07_m76_refuted) *)
+Theorem C07_m76_partial : exists g cls acc, method_class "76" = Some g /\
+    assoc (tx "DE" ++ [58%N] ++ s2t "76") registered = Some (cls, acc) /\
+    the_algos (tx "DE") (s2t "76") = Some (german_algo nd_runs german_table account_code_length g acc) /\
+    forall account expected, forallb is_ascii_digit account = true -> List.length account = 10%nat ->
+      rem_of 2 7 [2; 3; 4; 5; 6; 7]%Z Plain 11 (digs account) <> 10%Z ->
+      verdict (al_validate (german_algo nd_runs german_table account_code_length g acc) [account] expected)
+      = bb_accept "76" (digs account).
+Proof.
+  destruct C07_m61_76_obl as (_ & O). destruct (method_class "76") as [g|] eqn:Eg; [|discriminate].
+  destruct (method_algo "76" g Eg) as (cls & acc & Hreg & Hal). exists g, cls, acc.
+  split; [reflexivity|]. split; [exact Hreg|]. split; [exact Hal|].
+  intros account expected Hdig Hlen Hrem. cbn [al_validate german_algo]. rewrite C07_len_obl.
+  rewrite (m76_partial nd_runs C07_nd_obl german_table g account O Hdig Hlen Hrem). reflexivity.
+Qed.
+
 (* ---- 76: the equivalence is FALSE of the code as it stands (open known finding): with remainder 10 the Bundesbank
         says the number cannot be used; the class inherits the default rule, which turns 10 into check digit 0 ---- *)
 Theorem C07_m76_refuted :
@@ -449,6 +487,9 @@ Print Assumptions C07_only_account.
 Print Assumptions C07_m17.
 Print Assumptions C07_m21.
 Print Assumptions C07_m76_refuted.
+Print Assumptions C07_m61.
+Print Assumptions C07_m24.
+Print Assumptions C07_m76_partial.
 Print Assumptions C07_m88.
 Print Assumptions C07_m26.
 Print Assumptions C07_m25.
